@@ -57,7 +57,29 @@ _paths = [0]
 _stats_fd = int(os.environ["XH_STATS_FD"]) if os.environ.get("XH_STATS_FD") else None
 
 
+_LRU = []
+
+
+def _clear_uberjob_caches():
+    """Every execution path starts from the state a fresh process would have: functools.lru_cache memos of uberjob's own functions are
+    emptied (within ONE execution they work as in CPython -- see the lru_cache note above -- so a memo that should not be there still
+    shows; across CrossHair's paths they would make the execution non-deterministic)."""
+    if not _LRU:
+        from functools import _lru_cache_wrapper
+
+        _LRU.append(None)
+        for name, mod in list(sys.modules.items()):
+            if name == "uberjob" or name.startswith("uberjob."):
+                for val in list(vars(mod).values()):
+                    if isinstance(val, _lru_cache_wrapper):
+                        _LRU.append(val)
+    for f in _LRU[1:]:
+        f.cache_clear()
+
+
 def begin():
+    with nxpatch_notrace():
+        _clear_uberjob_caches()
     _paths[0] += 1
     if _stats_fd is not None:
         with nxpatch_notrace():
